@@ -142,6 +142,19 @@ def same(a, b):
     return a == b
 
 
+def extra_reference(path, name):
+    from seismic_zfp.read import SgzReader
+    import re
+    m = re.match(r"get_tracefield_values\((\d+)\)", name)
+    try:
+        with SgzReader(path) as r:
+            if m:
+                return ("ok", np.array(r.get_tracefield_values(int(m.group(1)))))
+    except Exception as e:
+        return ("exc", e)
+    return ("exc", KeyError(name))
+
+
 def results_on(path, preload=False):
     from seismic_zfp.read import SgzReader
     res = {}
@@ -236,7 +249,11 @@ def check_images(case, ctx, writes, final_path, d):
         for name, (o, v) in res.items():
             if o == "exc":
                 continue
-            if not same(v, ref[name][1]):
+            if name not in ref:
+                # a header word the partial file claims to store and the complete file does not list: the
+                # complete file's answer to the same call is the reference
+                ref[name] = extra_reference(final_path, name)
+            if ref[name][0] != "ok" or not same(v, ref[name][1]):
                 mname = name.split("(")[0]
                 vio = Violation(f"partial-file-differs:{mname}",
                                 f"{case['route']}: image at {pt} ({len(img)} of {len(final)} bytes), preload={preload}: {name} returned a value "
